@@ -122,4 +122,3 @@ func sweepCmd(args []string) {
 		len(results), errs, tot, ok, failed, unk, time.Since(t0).Seconds())
 }
 
-func checkCmd(args []string) {}
